@@ -20,7 +20,83 @@ def free_link_scenarios():
     return out
 
 
+def across_reset(ctx):
+    """Blocking requests in flight / queued when the NCP is reset deliberately (`ZBOSS.reset()`, real `connect()` with the
+    first 0..2 re-open attempts failing): they outlive the reset, so a blocking request issued after the reconnect must
+    still wait for them.  Observed on the written frames, each tagged with the request it belongs to."""
+    import hostworld
+    import streams
+    K = hostworld.kinds()
+    for fails in (0, 1, 2):
+        for queued in (0, 1):
+            for acked in (False, True):
+                w = hostworld.HostWorld()
+                try:
+                    order = []
+                    mk, _, _ = K["G"]
+                    w.start(1, mk(1), 12.0); order.append(1)
+                    if acked:
+                        w.rx(streams.ack(w.p._pack_seq))
+                    if queued:
+                        w.start(2, K["P"][0](2), 14.0); order.append(2)
+                    w.start_reset(real_connect=True, fail_first=fails)
+                    w.rx(streams.ack(w.p._pack_seq))
+                    w.lost()
+                    for _ in range(40):
+                        if "RECONNECTED" in w.log or not w.tick():
+                            break
+                    reconnected = "RECONNECTED" in w.log
+                    late = K["W"][0](3)                                   # another blocking request, issued after the reconnect
+                    assert late.blocking and mk(1).blocking and K["P"][0](2).blocking
+                    w.start(3, late, 16.0); order.append(3)
+                    steps = [list(w.log)]
+                    for _ in range(80):
+                        m = w.mark()
+                        if all(tk.done() for tk in w.tasks.values()) or not w.tick():
+                            break
+                        steps.append(w.log[m:])
+                    # per step (one timer expiry): completions first - the done-callback that logs them runs after the
+                    # wake-up of the next lock holder although the lock was released before that holder could write
+                    active, firsts, bad = None, [], None
+                    for st in steps:
+                        for e in st:
+                            if e.startswith("D") and "=" in e and int(e[1:].split("=")[0]) == active:
+                                active = None
+                        for e in st:
+                            if e.startswith("W") and "#" in e:
+                                rid = int(e.rsplit("#", 1)[1])
+                                raw = bytes.fromhex(e[1:].split("#")[0])
+                                if rid not in (1, 2, 3) or (raw[5] & 1):
+                                    continue
+                                if active is not None and active != rid and bad is None:
+                                    bad = "request %d writes while request %d is in progress" % (rid, active)
+                                if active is None:
+                                    active = rid
+                                if rid not in firsts:
+                                    firsts.append(rid)
+                            elif e.startswith("D") and "=" in e:
+                                if int(e[1:].split("=")[0]) == active:
+                                    active = None
+                    inp = dict(failed_reopen_attempts=fails, queued_blocking_requests=queued, first_acknowledged=acked)
+                    ctx.case(("across-reset", fails, queued, acked), nontrivial=True,
+                             sample=dict(inp, reconnected=reconnected, first_writes=firsts,
+                                         log=[x[:1] + x[-3:] if x.startswith("W") else x for x in w.log][-16:]))
+                    ctx.count("across-reset")
+                    if not reconnected:
+                        ctx.count("across-reset:not-reconnected")
+                        continue
+                    if bad:
+                        ctx.counterexample("blocking-overlap-across-reset", inp, "one blocking request at a time", bad,
+                                           "a blocking request issued after a reset's reconnect is written while an earlier one is still in progress")
+                    elif firsts != sorted(firsts):
+                        ctx.counterexample("blocking-not-fifo-across-reset", inp, sorted(firsts), firsts,
+                                           "blocking requests are not served in issue order across a reset")
+                finally:
+                    w.shutdown()
+
+
 def run(ctx):
+    across_reset(ctx)
     ctx.rule = ("(a) scenarios: a multi-fragment request fully acknowledged and waiting for its response, then a request of "
                 "another command: it must be written in the same step; (b) random schedules of 2..4 mixed requests with "
                 "ACK / response timing, timeouts, cancellations; non-trivial = >= 2 requests and >= 4 event kinds")
